@@ -6,3 +6,7 @@ import OsyrisProofs.C08
 #print axioms Osyris.C08.C08_vector_componentwise
 #print axioms Osyris.C08.C08_constants_true
 #print axioms Osyris.C08.C08_constants_each
+#print axioms Osyris.C08.Spelling.C08_spelling_mul_comm
+#print axioms Osyris.C08.Spelling.C08_spelling_mul_assoc
+#print axioms Osyris.C08.Spelling.C08_spelling_div_as_pow
+#print axioms Osyris.C08.Spelling.C08_spelling_pow_mul
